@@ -404,6 +404,13 @@ func (e *Engine) elemIdx(off, i Term) Term {
 	if off.S == z.S {
 		return i
 	}
+	// a re-based slice s[b:]: address its elements from the original base, idx(a, b+i), so that facts about
+	// the sub-slice and facts about the enclosing slice talk about the same idx(a, .) terms
+	if n := parseSexp(off.S); n != nil && len(n.kids) == 3 && (n.kids[0].atom == "+" || n.kids[0].atom == "bvadd") {
+		a := Term{n.kids[1].text, off.Sort}
+		b := Term{n.kids[2].text, off.Sort}
+		return app(e.ar.idxSort(), "idx", a, e.ar.idxAdd(b, i))
+	}
 	return app(e.ar.idxSort(), "idx", off, i)
 }
 
